@@ -16,7 +16,7 @@ one() {
   if ! (cd $s && GOFLAGS=-mod=mod GOPROXY=off GOSUMDB=off GOTOOLCHAIN=local go build ./... >/dev/null 2>&1); then echo "$pid combo does not build:$applied"; rm -rf $s; return; fi
   bad=""
   for p in $props; do
-    /verif/bin/rtcheck -property $p -tier quick -repo $s -no-evidence > $s/.out 2>&1; r=$?
+    ${RTCHECK:-/verif/bin/rtcheck} -property $p -tier quick -repo $s -verif /verif -no-evidence > $s/.out 2>&1; r=$?
     if [ $r -eq 1 ]; then bad="$bad $p:$(grep -o 'FAILED R[0-9.]*/[^ ]*' $s/.out | head -2 | sed 's/FAILED //' | tr '\n' ',')";
     elif [ $r -ne 0 ]; then bad="$bad $p:TOOL-ERROR($(tail -1 $s/.out | cut -c1-140))"; fi
   done
